@@ -5,6 +5,7 @@ package main
 
 import (
 	"context"
+	"crypto/tls"
 	"fmt"
 	"math"
 	"math/rand"
@@ -168,7 +169,14 @@ func main() {
 
 func oneHistory(run *verdict.Run, be *rig.Backend, tg *target, i int) {
 	r := run.Rand(int64(3000 + i))
-	c, err := h2fp.Dial(tg.addr, &net.TCPAddr{IP: net.IPv4(127, 0, 0, byte(1+i%8))}, nil)
+	var tweak func(*tls.Config)
+	if i%7 == 3 {
+		// a connection whose JA3 cannot be computed (253-byte server name, known finding D9): the injector in
+		// front of the HTTP/2 one fails for every request - the HTTP/2 fingerprint must be there all the same
+		tweak = func(cfg *tls.Config) { cfg.ServerName = strings.Repeat("c", 253) }
+		run.Add("connections_whose_ja3_injector_fails", 1)
+	}
+	c, err := h2fp.Dial(tg.addr, &net.TCPAddr{IP: net.IPv4(127, 0, 0, byte(1+i%8))}, tweak)
 	if err != nil {
 		run.Add("dial_failed", 1)
 		return
